@@ -17,6 +17,10 @@ CLAIMED = {
    text="Seeded search over GraphMap histories (directed and undirected, i32 keys drawn from a small universe so removed keys are re-added often, seeded good / four-bucket / constant BuildHasher through the existing S type parameter) in lock-step with a BTreeSet/BTreeMap simple-graph model: return values of add_edge/remove_*/Build routes, and after every step contains_*, edge_weight, Index, neighbors, neighbors_directed, edges, edges_directed (orientation rules), nodes, all_edges (both ways), counts, the to_index/from_index bijection, plus into_graph/from_graph and FromElements round trips. Faults: absent nodes/edges on every query and removal, IndexMut on a missing edge (documented panic), degenerate hashers. Exploration.",
    note="Trusts the BTree model; iteration orders are compared as multisets (documented as arbitrary).",
    technique=HIST),
+ "C04": dict(engine="history:matrix", design="DESIGN.md §2 C04",
+   text="Seeded search over MatrixGraph histories: Directed/Undirected x Option/NotZero null element x four index widths x seeded good/four-bucket/constant hasher x initial capacities around every 4/8/16/32/64 step, with runs of up to 70 nodes (and u8 runs that fill the id space) so the flattened matrix is relocated many times while edges sit on its border; node removal, id reuse and re-insertion interleave with edge add/update/remove through every entry point (add_edge, update_edge, try_update_edge, add_or_update_edge, Build routes, remove_edge, try_remove_edge, extend_with_edges, from_edges, clear). After every step node_count, edge_count, node ids and weights, edge_references, has_edge/get_edge_weight/edge_weight for all (or sampled) pairs, neighbors/edges and their directed variants are compared with a map-based simple-graph model; id stability and 'a reused id starts with no incident edges' follow from the comparison. Faults: documented panics (remove_edge of a missing edge, add_edge of an existing one, remove_node of an absent node, zero weight under NotZero, node limit) must leave the relation intact. Exploration.",
+   note="Edge operations are only issued between existing nodes and extend_with_edges only on vacancy-free graphs (the property's stated domain: the suite pins that edges to non-existent ids are tolerated). After the documented add_edge-on-existing panic the stored weight may be the old or the new one.",
+   technique=HIST),
  "C06": dict(engine="step-invariant:visit", design="DESIGN.md §2 C06",
    text="Step invariant evaluated on the states reached by the seeded mutation histories of the structure engines (so states with vacant node and edge indices, swap-renumbered graphs, parallel edges and self-loops are the norm): through the visit traits only, node_identifiers/node_references/node_count/to_index/from_index/node_bound, edge_references/edge_count, neighbors/edges/neighbors_directed/edges_directed per node and is_adjacent for every ordered pair of live nodes must describe one graph; the same battery is then run on &G, Reversed, UndirectedAdaptor, NodeFiltered, EdgeFiltered, Frozen and 11 depth-2 stackings against the base view transformed the obvious way. The oracle is self-consistency of the views (ground set = the structure's own node_identifiers + edge_references), independent of any reference model. Exploration.",
    note="UndirectedAdaptor is applied to directed bases only (over an undirected base it doubles every edge by construction) and the multiplicity with which it lists a self-loop (1 or 2) is left open; a run whose structure disagrees with the generation-driving model is discarded and counted, not reported here.",
